@@ -89,7 +89,7 @@ def depth_of(s):
 
 
 def plan(ctx):
-    L1, L2, L3 = ctx.pick((3, 3, 3), (3, 5, 3))
+    L1, L2, L3 = ctx.pick((3, 3, 3), (3, 4, 3))
     stages = [
         ('shard_enum', [('cat', 'A_CAT', L1, i, 32) for i in range(32)] +
                        [('core', 'A_CORE', L2, i, 32) for i in range(32)] +
